@@ -123,6 +123,8 @@ def c18(ctx, t0):
         res.append(ctx.run_child('loader', [hx, 'c18'], T(ctx, 400, 3000)))
     if want(ctx, 'reload'):
         res.append(ovl_stage(ctx, 'reload', 'TestVerifC18Reload', T(ctx, 600, 3000)))
+    if want(ctx, 'reload-nohooks'):
+        res.append(ovl_stage(ctx, 'reload-nohooks', 'TestVerifC18ReloadNoHooks', T(ctx, 600, 3000)))
     if want(ctx, 'reload-binary'):
         ctx.build_agent()
         res.append(ctx.run_child('reload-binary', [hx, 'c18bin'], T(ctx, 600, 1800)))
